@@ -218,12 +218,11 @@ pub fn to_string_pretty(t: &Table) -> Result<String, ser::Error> {
 	if kani::any() {
 		return Err(ser::Error::Custom);
 	}
-	let mut s = String::new();
-	let mut i = 0;
-	while i < t.entries && i < 3 {
-		s.push('e');
-		i += 1;
-	}
+	let s = match t.entries {
+		0 => String::new(),
+		1 => String::from("e"),
+		_ => String::from("ee"),
+	};
 	Ok(s)
 }
 
